@@ -174,7 +174,96 @@ class SetItem(Contract):
         return {"self": me, "key": fresh("str", "key"), "value": fresh("str", "value")}
 
 
+# P-08c  _dump_format: one entry per key, "Key: value\n" - or "Key:value\n" when the value is empty or starts with a newline -
+# with the value exactly as get_as_string returns it (nothing stripped, nothing added)
+def entry(key, value):
+    if (not value) or value[0] == "\n":
+        return key + ":" + value + "\n"
+    return key + ": " + value + "\n"
+
+
+def entries(self_, keys):
+    if len(keys) == 0:
+        return []
+    return [entry(keys[0], value_text(self_, keys[0]))] + entries(self_, keys[1:])
+
+
+def value_text(self_, key):
+    return ""       # opaque: what self.get_as_string(key) returns
+
+
+class IterAbs(Contract):
+    target = MOD + ":Deb822Dict.__iter__"
+    modular = True
+    returns = ("list", "str")
+    ensures = ("result == self.keys",)
+
+
+class GetAsStringAbs(Contract):
+    target = MOD + ":Deb822.get_as_string"
+    modular = True
+    returns = "str"
+    ensures = ("result == value_text(0, key)",)
+
+
+class DumpFormat(Contract):
+    locals_order = ['self', 'key', 'value', 'entry']
+    target = MOD + ":Deb822._dump_format"
+    modular = False
+    yields = "str"
+    ensures = ("result == entries(0, self.keys)",)
+    loops = {0: LoopSpec(invariants=("0 <= ki and ki <= len(self.keys)",
+                                     "yields + entries(0, self.keys[ki:]) == entries(0, self.keys)"),
+                         index="ki", var_types={"key": "str", "value": "str", "entry": "str"})}
+
+    def setup(self, ex):
+        me = VObj("Deb822", {"keys": fresh(("list", "str"), "keys")}, "self")
+        return {"self": me}
+
+
+def item_text(self_, key):
+    return ""       # opaque: the stored value self[key] (a str for ordinary fields)
+
+
+class GetItemAbs(Contract):
+    target = MOD + ":Deb822Dict.__getitem__"
+    modular = True
+    returns = "str"
+    ensures = ("result == item_text(0, key)",)
+    raises = {"KeyError": ()}
+    raises_modifies = {"KeyError": ()}
+
+
+class GetAsString(Contract):
+    """Deb822.get_as_string(key) is the stored value itself: nothing stripped, nothing added"""
+    target = MOD + ":Deb822.get_as_string"
+    modular = False
+    ensures = ("result == item_text(0, key)",)
+    raises = {"KeyError": ()}
+
+    def setup(self, ex):
+        return {"self": VObj("Deb822", {}, "self"), "key": fresh("str", "key")}
+
+
+def run_dump_format(ctx):
+    sl0 = SpecLib()
+    w0 = World(sl0)
+    w0.spec_func(item_text, rec=dict(args=["int", "str"], ret="str", opaque=True))
+    w0.add_contract(GetItemAbs())
+    verify_contracts(ctx, w0, [GetAsString()], {})
+    sl = SpecLib()
+    w = World(sl)
+    w.spec_func(entry)
+    w.spec_func(value_text, rec=dict(args=["int", "str"], ret="str", opaque=True))
+    w.spec_func(entries, rec=dict(args=["int", "list:str"], ret=("list", "str")))
+    w.add_contract(IterAbs())
+    w.add_contract(GetAsStringAbs())
+    verify_contracts(ctx, w, [DumpFormat()], {})
+    ctx.solve()
+
+
 def run_deductive(ctx):
+    run_dump_format(ctx)
     sl = SpecLib()
     w = World(sl)
     w.spec_func(shape_ok)
@@ -284,7 +373,10 @@ def run(ctx):
                        "domain (SMT on the real pattern objects). ALSO PROVED from the AST: validate_input returns normally exactly on "
                        "values without trailing newline whose later lines (as str.splitlines sees them) are non-empty and start with a "
                        "whitespace character, and raises ValueError otherwise; Deb822.__setitem__ validates before it stores, so a "
-                       "rejected value leaves the paragraph exactly as it was; split_gpg_and_payload, from its real AST, returns exactly the lines (CR / LF stripped) as payload - nothing taken for armor, nothing cut off - for every sequence of lines none of which matches the armor pattern or the separator pattern in force (loop invariant over the line index; both parser settings). _dump_format and the field-collecting loop are not under a "
+                       "rejected value leaves the paragraph exactly as it was; split_gpg_and_payload, from its real AST, returns exactly the lines (CR / LF stripped) as payload - nothing taken for armor, nothing cut off - for every sequence of lines none of which matches the armor pattern or the separator pattern in force (loop invariant over the line index; both parser settings). ALSO PROVED: _dump_format yields exactly one entry per key - 'Key: value' + newline, or 'Key:value' + newline "
+                       "when the value is empty or starts with a newline - with the value exactly as get_as_string returns it, and "
+                       "Deb822.get_as_string returns the stored value unchanged; the field-collecting loop of _internal_parser against "
+                       "its recursive specification. The composition of these pieces is not under one "
                        "contract: the composition validator -> dump -> parser is covered by the BOUNDED enumeration of all short values.")
     ctx.assumptions += ["character domain as stated in the property: Python-only whitespace / line boundaries (NBSP, VT, FF, "
                         "FS-US, NEL, U+2028 ...) are outside"]
